@@ -303,6 +303,8 @@ def run(ck):
     prover_origin_rules(ck, prog, psg, ptags)
     seed_field_coverage(ck, prog)
     digest_coverage(ck, prog)
+    from . import c15 as _c15
+    _c15.remainder_sent(ck, prog, rule="SENT")   # FRI: the remainder carried in the proof is the one whose hash was absorbed
 
     # floors counted on the pinned tree
     ck.floor("verifier reseed sites (expanded)", n_reseed_v, 18)
